@@ -726,8 +726,8 @@ def prefilter_loops(q, fn, log, name):
     tests = [_RenameLoad(y, x).visit(_clone(t)) for t in g.ifs]
     test = tests[0] if len(tests) == 1 else ast.BoolOp(op=ast.And(), values=tests)
     it = g.iter
-    if isinstance(comp, ast.ListComp) and not (isinstance(it, ast.Call) and isinstance(it.func, ast.Name) and it.func.id in ("list", "tuple", "sorted")) \
-        and not isinstance(it, (ast.Name, ast.Attribute)):
+    if isinstance(comp, ast.ListComp) and not (isinstance(it, ast.Call) and isinstance(it.func, ast.Name) and it.func.id in ("list", "tuple", "sorted")):
+      # a list comprehension is a snapshot of its iterable: the loop form keeps one
       it = ast.Call(func=ast.Name(id="list", ctx=ast.Load()), args=[it], keywords=[])
     node.iter = ast.copy_location(it, comp)
     node.body = [ast.copy_location(ast.If(test=test, body=node.body, orelse=[]), node.body[0])]
